@@ -285,6 +285,60 @@ Proof.
     destruct (w' =? w); simpl; lia.
 Qed.
 
+(* [probe] never runs out of fuel: pigeonhole over the |map|+1 consecutive ids tried *)
+Fixpoint probe_ids (f : nat) (i : N) : list N :=
+  match f with O => [] | S f' => i :: probe_ids f' ((i + 1) mod 65536) end.
+
+Lemma map_mem_true_in : forall V (m : list (N * V)) k, map_mem k m = true -> In k (keys m).
+Proof.
+  intros V m k H. unfold map_mem in H. destruct (map_find k m) as [v|] eqn:E; [|discriminate].
+  apply map_find_in in E. unfold keys. apply in_map_iff. exists (k, v). auto.
+Qed.
+
+Lemma probe_none_incl : forall V f i (m : list (N * V)), probe f i m = None -> incl (probe_ids f i) (keys m).
+Proof.
+  induction f as [|f IH]; intros i m H x Hx; [destruct Hx|]. simpl in H.
+  destruct (map_mem i m) eqn:E; [|discriminate]. simpl in Hx. destruct Hx as [<-|Hx].
+  - apply map_mem_true_in. exact E.
+  - eapply IH; eassumption.
+Qed.
+
+Lemma probe_ids_elem : forall f i x, i < 65536 -> In x (probe_ids f i) ->
+  exists k, (k < f)%nat /\ x = (i + N.of_nat k) mod 65536.
+Proof.
+  induction f as [|f IH]; intros i x Hi Hx; [destruct Hx|]. simpl in Hx. destruct Hx as [<-|Hx].
+  - exists 0%nat. split; [lia|]. simpl. rewrite N.add_0_r. symmetry. apply N.mod_small. exact Hi.
+  - assert (Hi' : (i + 1) mod 65536 < 65536) by (apply N.mod_lt; lia).
+    destruct (IH _ _ Hi' Hx) as [k [Hk ->]]. exists (S k). split; [lia|].
+    rewrite N.add_mod_idemp_l by lia. f_equal. lia.
+Qed.
+
+Lemma probe_ids_nodup : forall f i, N.of_nat f <= 65536 -> i < 65536 -> NoDup (probe_ids f i).
+Proof.
+  induction f as [|f IH]; intros i Hf Hi; [constructor|]. simpl. constructor.
+  - intros Hx. assert (Hi' : (i + 1) mod 65536 < 65536) by (apply N.mod_lt; lia).
+    destruct (probe_ids_elem f _ i Hi' Hx) as [k [Hk E]].
+    rewrite N.add_mod_idemp_l in E by lia.
+    assert (Hk' : N.of_nat k < 65535) by lia.
+    destruct (N.lt_ge_cases (i + 1 + N.of_nat k) 65536) as [L|G].
+    + rewrite N.mod_small in E by exact L. lia.
+    + replace (i + 1 + N.of_nat k) with ((i + 1 + N.of_nat k - 65536) + 1 * 65536) in E by lia.
+      rewrite N.mod_add in E by lia. rewrite N.mod_small in E by lia. lia.
+  - apply IH; [lia|]. apply N.mod_lt. lia.
+Qed.
+
+Lemma probe_ids_length : forall f i, length (probe_ids f i) = f.
+Proof. induction f; intros; simpl; [reflexivity | rewrite IHf; reflexivity]. Qed.
+
+Lemma probe_total : forall V (m : list (N * V)) id, id < 65536 -> lenN m < 65536 ->
+  probe (S (length m)) id m <> None.
+Proof.
+  intros V m id Hid Hl H. unfold lenN in Hl. apply probe_none_incl in H.
+  assert (ND : NoDup (probe_ids (S (length m)) id)) by (apply probe_ids_nodup; [lia | exact Hid]).
+  pose proof (NoDup_incl_length ND H) as L. rewrite probe_ids_length in L.
+  unfold keys in L. rewrite map_length in L. lia.
+Qed.
+
 Definition dinv (s : dstate) : Prop :=
   NoDup (keys (d_map s)) /\ (d_conn s = false -> d_map s = []).
 
